@@ -7,7 +7,8 @@ From BT Require Import Base.Util Base.Float Model.RTree Model.BBIFile Model.BigW
   Model.EntryBedSweep Proofs.DepthStats Proofs.SweepRLE Proofs.BedSummary Proofs.BedTile Proofs.ZoomLevels.
 From BT Require Import Generated.Consts Model.BBIRead Proofs.RTreeCodec Proofs.ZoomQuery Proofs.ZoomBwLevels
   Proofs.C08FileGeom Proofs.C08FileCodec Proofs.C08FileQuery.
-From BT Require Model.BigBedWrite Proofs.BedZoomFit Proofs.BedEndToEnd.
+From BT Require Model.BigBedWrite Proofs.BedZoomFit Proofs.BedEndToEnd Proofs.RTreeBuild.
+From Coq Require Sorting.Sorted.
 Local Open Scope N_scope.
 
 (* shared with C06: the sweep emits the run-length encoding of the depth *)
@@ -177,6 +178,18 @@ Theorem C08_geometry_any_mode : forall fp fp' ips size chrom es secs,
   exists secs', bb_zoom_records fp' ips size chrom es = Ok secs' /\ Forall2 (Forall2 geq) secs secs'.
 Proof. exact zoom_records_geq. Qed.
 Print Assumptions C08_geometry_any_mode.
+
+(* C05's hypothesis for what the writer lays out, stand-alone (used inside C08_zoom_query): the placed sections
+   of a level are sorted by (chromosome, start) when the chromosome ids increase in file order (they are 0,1,2,..
+   for an accepted input) and every chromosome's entries are accepted ones (C08_accepted_valid), every mode *)
+Theorem C08_level_sections_sorted : forall fp ips size (chs : list (N * list entry)) per sds pos,
+  1 <= size -> Sorted.StronglySorted N.lt (map fst chs) ->
+  Forall (fun c => valid_zoom_chrom U32_MAX (snd c)) chs ->
+  Forall2 (fun c recs => bb_zoom_records fp ips size (fst c) (snd c) = Ok recs) chs per ->
+  mapM (encode_zoom_section fp) (concat per) = Ok sds ->
+  RTreeBuild.sorted_starts (map sect_span (place pos sds)).
+Proof. exact bb_level_sections_sorted. Qed.
+Print Assumptions C08_level_sections_sorted.
 
 (* the list-level core of the query theorem (C07's argument on any record lists): sections whose recorded span
    [first start, last end] misses the range hold no record the reader's filter keeps *)
